@@ -13,6 +13,19 @@ Section Tables.
         let wrong := (negb (order_at (ta_order st1) index =? index) || key_mem keq (ta_dups st1) a) in
         OK (a, (if wrong then Some index else None), st1)
     end.
+  (* the generator is consumed to the end by its callers; the table it reads is the one found_index updates *)
+  Definition additional_args (st : toargs T) : res (list (T * option Z)) :=
+    match foldM (fun (acc : toargs T * list (T * option Z)) (i : Z) =>
+                   if negb (omem (ta_order (fst acc)) i) then
+                     match found_index (fst acc) i with
+                     | OK (a, ov, st') => OK (st', snd acc ++ [(a, ov)])
+                     | Err e => Err e
+                     end
+                   else OK acc)
+                (map Z.of_nat (seq 0 (length (ta_args st)))) (st, []) with
+    | OK acc => OK (snd acc)
+    | Err e => Err e
+    end.
   Definition fa_setitem (st : fromargs T) (i : Z) (a : T) : res (fromargs T) :=
     let clash := match oget (fa_items st) i with Some old => negb (keq old a) | None => false end in
     if clash then Err ValueError
